@@ -68,8 +68,32 @@ fn enc<F: FieldElement>(v: &[F]) -> String {
 }
 
 /// a chunk that the sampler of field `F` must reject / accept
+/// little-endian bytes of the field modulus plus `delta` (the moduli are written out here, not asked
+/// of the library: the boundary chunks must not depend on the code under test)
+fn modulus_plus(sz: usize, delta: i64) -> Vec<u8> {
+    let mut b: Vec<u8> = match sz {
+        4 => 4293918721u32.to_le_bytes().to_vec(),
+        8 => 18446744069414584321u64.to_le_bytes().to_vec(),
+        16 => 340282366920938462946865773367900766209u128.to_le_bytes().to_vec(),
+        _ => {
+            // 2^255 - 19
+            let mut b = vec![0xffu8; 32];
+            b[0] = 0xed;
+            b[31] = 0x7f;
+            b
+        }
+    };
+    // the low byte of every modulus is far enough from 0 and 255 for |delta| <= 2
+    b[0] = (b[0] as i64 + delta) as u8;
+    b
+}
+
 fn chunk<F: FieldElement>(rng: &mut Sm, reject: bool) -> Vec<u8> {
     let sz = F::ENCODED_SIZE;
+    // boundary chunks: exactly the modulus and modulus + 1 are rejected, modulus - 1 is accepted
+    if rng.below(4) == 0 {
+        return modulus_plus(sz, if reject { rng.below(2) as i64 } else { -1 });
+    }
     loop {
         let mut b = if reject {
             let mut b = vec![0xff; sz];
